@@ -189,7 +189,9 @@ CHECK = {
                 "history (induction over op lists) the stored window is exactly the last min(n,W) truncated samples since the last "
                 "reset, sums are exact over that window (no drift), availability iff W samples, getAverage / getVariance are the mean / "
                 "unbiased sample variance over R, ring entry k is the k-th most recent for every capacity (2^64 wrap of both size_t "
-                "operations) also after clear. FLOAT LEVEL (Flocq, binary64, coq/OnlineStatsFloat.v): multiplier in 1..1e6, truncated "
+                "operations) also after clear, and no partial C++ operation (% windowSize_, data_[index_]) is ever used outside its domain. "
+                "The tie holds for every numeric dictionary in which int 1 converts to one and the product commutes (reals, binary64). "
+                "FLOAT LEVEL (Flocq, binary64, coq/OnlineStatsFloat.v): multiplier in 1..1e6, truncated "
                 "samples bounded, double(sum), double(multiplier), size and multiplier*size exact, so the reported average is the exact "
                 "mean rounded ONCE (relative error <= 2^-53, independent of the history length: no drift as a float theorem, also "
                 "stated about the generated code); variance within 2^-53(7A+9B)/(W-1)+3*2^-1075 of the exact unbiased variance "
